@@ -8,6 +8,9 @@ import DadiVerif.Model.Projection
    project folded ns data mask        -> ok <nd data> <nd mask> <folded> | err dim | err up
    project1 ax m folded data mask     -> ok <nd data> <nd mask> <folded> | err up | err axis
    fold data mask / unfold data mask  -> ok <nd data> <nd mask> <folded>
+   mirror folded data mask            -> ok <nd data> <nd mask> <folded>     `Numerics.reverse_array` (every axis reversed)
+   total folded data mask             -> ok <rat>                            `fs.data.sum()` (raw data)
+   ptotal folded ns data mask         -> ok <rat> | err dim | err up         raw total of `project(ns)`
    masks are sent as nd arrays of 0/1 -/
 namespace DadiVerif.Driver.Projection
 open DadiVerif DadiVerif.Proto
@@ -59,6 +62,18 @@ def handle (toks : List String) : Option String :=
   | ["unfold", data, mask] => do
       let S ← parseSpec "1" data mask
       some ("ok " ++ showSpec S.unfold)
+  | ["mirror", folded, data, mask] => do
+      let S ← parseSpec folded data mask
+      some ("ok " ++ showSpec S.mirror)
+  | ["total", folded, data, mask] => do
+      let S ← parseSpec folded data mask
+      some ("ok " ++ showRat S.total)
+  | ["ptotal", folded, ns, data, mask] => do
+      let S ← parseSpec folded data mask
+      let ns ← parseNatList ns
+      match S.project ns with
+      | .ok R => some ("ok " ++ showRat R.total)
+      | .error e => some ("err " ++ e)
   | _ => none
 
 end DadiVerif.Driver.Projection
